@@ -157,6 +157,8 @@ ImageBodies ==
     <<P(<<R(<<"T"," ">> \o ImgP \o <<" ","U">>, 1, "")>>, <<"jc", "keepNext">>)>>,               \* with text, one run
     <<P(<<R(<<"T"," ">>, 1, ""), R(ImgP, 2, ""), R(<<" ","U">>, 3, "")>>, <<>>)>>,               \* with text, three runs
     <<P(<<R(<<"T">> \o ImgP \o <<"M">> \o ImgQ \o <<"U">>, 1, "")>>, <<>>)>>,                    \* two in a paragraph
+    <<P(<<R(<<"T">> \o ImgP \o <<"M">> \o ImgP \o <<"U">>, 1, "")>>, <<>>), Plain(<<"e">>)>>,       \* the SAME picture twice in a paragraph
+    <<Plain(<<"s">>), Tb(<< << <<Plain(ImgP \o <<"M">> \o ImgP)>>, <<Plain(<<"m">>)>> >> >>, FALSE)>>, \* ... and in a cell
     <<Plain(<<"s">>), Tb(<< << <<Plain(ImgP)>>, <<Plain(<<"m">>)>> >> >>, FALSE)>>,               \* in a cell
     <<Plain(ImgP), Plain(ImgQ), Plain(<<"e">> \o TkVar(Nz))>>,                                   \* two paragraphs
     <<Plain(<<"T"," ">> \o ImgP \o <<" ","U">>), Plain(ImgQ), Plain(<<"e">>)>>,                   \* text + second paragraph
